@@ -13,7 +13,7 @@ TEXT = props.MANIFEST_TEXT
 NA = props.NOT_APPLICABLE
 
 checks = []
-for pid in sorted(props.PROPS):
+for pid in sorted(props.ENABLED):
     t = TEXT[pid]
     checks.append({
         "property_id": pid,
@@ -37,11 +37,11 @@ m = {
         "add_only": True,
     },
     "engines": [
-        {"name": "kani", "path": "/verif/kani", "serves_properties": sorted(props.PROPS),
+        {"name": "kani", "path": "/verif/kani", "serves_properties": sorted(props.ENABLED),
          "kind_free_text": "three Kani harness crates (rules, magic, search) that include! the engine's real source files from /repo/src on every build; runner lib/runner.py"},
     ],
     "checks": checks,
-    "not_applicable": [{"property_id": k, "reason": v} for k, v in sorted(NA.items()) if k not in props.PROPS],
+    "not_applicable": [{"property_id": k, "reason": v} for k, v in sorted(NA.items()) if k not in props.ENABLED],
     "notes": "Exit codes of ./check: 0 held on everything explored; 1 VIOLATION (natively replayed counterexample); 2 INCONCLUSIVE (timeout, memory cap, vacuous harness, build failure or a solver counterexample that did not reproduce natively) - never reported as success.",
 }
 json.dump(m, open(os.path.join(VERIF, "MANIFEST.json"), "w"), indent=1)
